@@ -319,7 +319,7 @@ Qed.
 (** What an accepted observation guarantees about the implementation's own verdicts. *)
 Definition SetRule (D : decls) (is : list instr) (singles : list verdict) : Prop :=
   Forall2 (fun i v => match i with
-                      | ISet _ e => v = Ok <-> (forall l, leaf l e -> real_leaf num_accepted D l)
+                      | ISet _ e => v = Ok <-> (forall l, leaf l e -> real_leaf num_strict D l)
                       | _ => True
                       end) is singles.
 
